@@ -42,7 +42,9 @@ MANIFEST = {
             'query truncates gradient_logpdf).',
     'technique': 'deductive: SMT VCs from the real AST over symbolic arrays, a symbolic networkx graph + dict heap and recording model stubs (pyvc, '
                  'z3/cvc5), ghost lemmas with loop invariants over extended reals; bounded stand-in: 9 hierarchical models <= 4 parameters against '
-                 'scipy.stats products (every parent-closed subset and order, boundary points, input ranks, draws, analytic gradients)',
+                 'scipy.stats products (every parent-closed subset and order, boundary and far-tail points, input ranks, draws, analytic gradients, '
+                 'gradient matrices mixing rows inside / outside / on the boundary against single-point calls and an independent central difference, '
+                 'inputs of 1..130000 rows and c-1, c, c+1, 2c+1 rows for every integer class constant c of the real ModelPrior)',
 }
 
 import itertools
